@@ -319,12 +319,16 @@ var c05cells = []c05cell{
 		func(x *c05ctx) []hlref.Field {
 			return []hlref.Field{sfld(hlref.FFileName, "deep"), fld(hlref.FFilePath, p1("dir")), sfld(hlref.FFileNewName, "../deep2")}
 		},
-		func(x *c05ctx) bool { return exists(x.w.FileRoot, "dir", "deep2") && !exists(x.w.FileRoot, "dir", "deep") }),
+		func(x *c05ctx) bool {
+			return exists(x.w.FileRoot, "dir", "deep2") && !exists(x.w.FileRoot, "dir", "deep")
+		}),
 	diskCell("rename:file:dotdot-name", []int{hlref.PrivRenameFile}, hlref.TranSetFileInfo,
 		func(x *c05ctx) []hlref.Field {
 			return []hlref.Field{sfld(hlref.FFileName, "inner.txt"), fld(hlref.FFilePath, p1("dir")), sfld(hlref.FFileNewName, "../inner2.txt")}
 		},
-		func(x *c05ctx) bool { return exists(x.w.FileRoot, "dir", "inner2.txt") && !exists(x.w.FileRoot, "dir", "inner.txt") }),
+		func(x *c05ctx) bool {
+			return exists(x.w.FileRoot, "dir", "inner2.txt") && !exists(x.w.FileRoot, "dir", "inner.txt")
+		}),
 	uploadFolderCell("upload-folder:into-uploads", []int{hlref.PrivUploadFolder}, p1("Uploads")),
 	uploadFolderCell("upload-folder:into-dropbox", []int{hlref.PrivUploadFolder}, p1("Drop Box")),
 	uploadFolderCell("upload-folder:elsewhere", []int{hlref.PrivUploadFolder, hlref.PrivUploadAnywhere}, p1("other")),
